@@ -31,6 +31,8 @@ def items(tier):
         per = 5 if tier == "quick" else 40
         for c in grid.real_grid("quick"):
             n = seen.get(c.prim, 0)
+            if "ndarray" in c.label:
+                n = 0  # option values handed over as (read-only) ndarrays the caller keeps: always included
             if n >= per or ("reuse " + c.key) in have:
                 continue
             seen[c.prim] = n + 1
@@ -38,6 +40,11 @@ def items(tier):
     elif which == "C17":
         for c in grid.program_grid(tier):
             out.append(("checkpoint", c))
+        # the extension contract on ARRAYS: None positions whose shape / kind differs from the output's, both modes
+        for c in grid.real_grid("quick", families=("extension",)):
+            out.append(("vjp", c))
+            out.append(("jvp", c))
+            out.append(("struct", c))
     return out
 
 
@@ -51,6 +58,8 @@ def check(it, tier):
         o = checks_a.check_vjp(cfg, tier)
     elif mode == "jvp":
         o = checks_a.check_jvp(cfg, tier)
+    elif mode == "struct":
+        o = checks_a.check_structure(cfg, tier)
     elif mode == "reuse":
         o = checks_a.check_reuse(cfg, tier)
     else:
